@@ -207,6 +207,44 @@ theorem optional_exact (progId : List Nat) (fuel : Nat) (s : ASet) :
     | error e => rfl
     | ok p => cases p; rfl
 
+
+/-- Sequence carriers validated with an ARGUMENT LIST (`Vec<T>` with `Vec<arg>`): accepted iff there
+are at least as many arguments as decoded elements AND every element — each one, up to the last —
+accepts under the argument at its own index. With fewer arguments than elements it is an
+`InvalidArgument` error (never a partial validation), surplus arguments are ignored. The `[arg; M]`
+form additionally requires `M` = the number of elements; the `(arg,)` form validates every element
+under the same argument. -/
+theorem vec_args_accepts_iff {α β : Type} (v : α → β → Except Err Unit) (xs : List β) (as : List α) :
+    (validateVecArgs v .vecArgs xs as = .ok () ↔
+      xs.length ≤ as.length ∧ ∀ (i : Nat) x, xs[i]? = some x → ∃ a, as[i]? = some a ∧ v a x = .ok ()) ∧
+    (as.length < xs.length → validateVecArgs v .vecArgs xs as = .error .invalidArgument) ∧
+    (validateVecArgs v .arrArgs xs as = .ok () ↔
+      xs.length = as.length ∧ ∀ (i : Nat) x, xs[i]? = some x → ∃ a, as[i]? = some a ∧ v a x = .ok ()) ∧
+    (∀ a rest, as = a :: rest →
+      (validateVecArgs v .bcast xs as = .ok () ↔ ∀ x ∈ xs, v a x = .ok ())) := by
+  refine ⟨?_, ?_, ?_, ?_⟩
+  · by_cases h : as.length < xs.length
+    · simp only [validateVecArgs, h, if_true]
+      constructor
+      · intro hh; cases hh
+      · rintro ⟨hle, _⟩; omega
+    · have hle : xs.length ≤ as.length := by omega
+      simp only [validateVecArgs, h, if_false, validateZip_ok_iff v xs as hle]
+      exact ⟨fun hh => ⟨hle, hh⟩, fun hh => hh.2⟩
+  · intro h; simp [validateVecArgs, h]
+  · by_cases he : as.length = xs.length
+    · have hne : ¬ (as.length ≠ xs.length) := by simp [he]
+      simp only [validateVecArgs, hne, if_false, validateZip_ok_iff v xs as (by omega)]
+      exact ⟨fun hh => ⟨he.symm, hh⟩, fun hh => hh.2⟩
+    · simp only [validateVecArgs, ne_eq, he, not_false_eq_true, if_true]
+      constructor
+      · intro hh; cases hh
+      · rintro ⟨h', _⟩; exact absurd h'.symm he
+  · intro a rest he
+    subst he
+    simp only [validateVecArgs]
+    exact validateZip_replicate v xs a
+
 /-! ## Non-vacuity: concrete nests of depth 5 with carriers -/
 
 def exKey : List Nat := (List.range 32).map (· + 1)
@@ -239,5 +277,13 @@ example : validateD
 -- the address check of a field runs before the field's own validation
 example : validateD (.addr exProg (.boxed (.single [.signer] .info (mkA exKey systemId false false []))))
     = .error .addressMismatch := by rfl
+
+-- `Vec<Seeded<Signer<…>>>` validated with a `Vec` of seeds: one argument short = `InvalidArgument`,
+-- and with enough arguments a bad LAST element is still rejected
+def exArgChain : ArgChain := { outer := [], inner := [.signer], base := .info }
+example : decodeValidateArgs exArgChain .vecArgs 2 [exKey] [exSys, exSys] = .error .invalidArgument := by rfl
+example : decodeValidateArgs exArgChain .vecArgs 2 [exKey, exKey, exProg] [exSys, exSys] = .ok () := by rfl
+example : decodeValidateArgs exArgChain .vecArgs 2 [exKey, exKey]
+    [exSys, mkA exKey systemId false false []] = .error .expectedSigner := by rfl
 
 end Account.C09
